@@ -79,7 +79,7 @@ def run_property(modname: str, tier: str, seed: int, update_ledger: bool = False
     specs = mod.specs(tier)
     if only:
         specs = [s for s in specs if only in (s.label or s.target)]
-    timeout_ms = int(os.environ.get("PYVC_TIMEOUT_MS", "20000" if tier == "quick" else "90000"))
+    timeout_ms = int(os.environ.get("PYVC_TIMEOUT_MS", "45000" if tier == "quick" else "120000"))
     results: list[FunctionResult] = []
     all_obls = []
     drop = getattr(mod, "DROP_CLAUSES", None)
